@@ -158,6 +158,19 @@ EXTRA6 = {
 }
 
 
+EXTRA7 = {
+    "C01": " SCOPE: as C02.SCOPE. TRIPLE also removes a relation that is absent from a single-valued row.",
+    "C02": " SCOPE: remove_key / remove_data clear index rows with remove_second(set, item) only, never set-wide.",
+    "C03": " NOSHRINK: the readers' padding resize_with is reached only under new length > current length. MERGEID: Storable::merge writes back the receiver's own handle, read before the overwrite.",
+    "C05": " RESOLVE: every File::open / File::create of the file helpers opens a path from get_filepath (dominating). ORDER: no JSON writer re-orders what it writes. EXTAGREE: writer and reader of a stand-off resource decide `STAM JSON` by the same test.",
+    "C06": " EXHAUST: the search leaves a candidate iterator only when it is exhausted.",
+    "C08": " SORTKEY: the comparator textual_order() of text selections sorts with before dedup() also orders by the resource.",
+    "C14": " BRACKET: functions that switch merge mode on switch it off and restore temporarily set fields on every path to a return.",
+    "C15": " ROWORDER: the dataset table is written in store order. VALUETEXT: the Value column is read as text.",
+    "C17": " IRI: is_iri evaluated on identifiers with one and several colons.",
+    "C18": " RESOLVE: as C05.RESOLVE.",
+}
+
 TECH_EXTRA = {
     "C01": "; interpretation of the extracted RelationMap / TripleRelationMap / ExclusiveRelationMap methods and of the multi-target match of inserted() against reference maps (lib/formula.py)",
     "C02": "; MIR must-pass-through rules on the removal routines; interpretation of the index maps' removal methods",
@@ -183,6 +196,8 @@ def main():
         c_ = CHECKS[k_]
         if not c_[1].endswith(v_):
             CHECKS[k_] = (c_[0], c_[1] + v_, c_[2], c_[3], c_[4], c_[5])
+    for k_, v_ in EXTRA7.items():
+        EXTRA6[k_] = EXTRA6.get(k_, "") + v_
     for k_, v_ in EXTRA6.items():
         EXTRA5[k_] = EXTRA5.get(k_, "") + v_
     for k_, v_ in EXTRA5.items():
